@@ -316,6 +316,13 @@ pub const EXEMPLARS: &[(&str, &str)] = &[
     // non-zero numbers below machine epsilon: truthy, != 0 only beyond the language's tolerance
     ("tiny", "(0.1 + 0.2 - 0.3)"),
     ("negtiny", "(0.3 - 0.2 - 0.1)"),
+    // boundaries of the integer types a fast path might cast to
+    ("neghuge", "-HUGE"),
+    ("i64min", "-9223372036854775808"),
+    ("two63", "9223372036854775808"),
+    ("two64", "18446744073709551616"),
+    ("two32", "4294967296"),
+    ("i32min", "-2147483648"),
     ("denormal", "0.000000000000000000000000000000000000000000000000000000000000000000000000000000000000000000000000000000000000000000000000000000000000000000000000000000000000000000000000000000000000000000000000000000000000000000000000000000000000000000000000000000000000000000000000000000000000000000000000000000000000000000000000005"),
 ];
 
